@@ -5,9 +5,8 @@
    2. byte reader: jpeg/standard/reader.go  Reader.ReadByte / ReadUint16 / ReadMarker /
       ReadSegment over a bytes.Reader, as a function on the remaining byte list.
    3. Go int (64 bit) helpers.
-   Parameter g : bool in the parser models: g = false is the code as it stands in /repo;
-   g = true adds the proposed range checks (each is an `if g && cond then Err`), see the
-   individual files. *)
+   The parser models are transliterations of the code as it stands in /repo (after the fixes of
+   findings F36-F46); every slice index, division and make() is an explicit check. *)
 From V Require Import Common.Base.
 
 Definition M (A : Type) : Type := (outcome A * list Z)%type.
@@ -94,6 +93,38 @@ Definition idx (l : list Z) (i : Z) : M Z :=
 Definition lift {A} (o : outcome A) : M A := (o, []).
 
 Definition fuel_of (bs : list Z) : nat := S (S (length bs)).
+
+(* ---------------- the frame header a decoder acts upon ----------------
+   seg_data / seg_rest: payload and remainder of a marker segment, from its length field alone.
+   frame_S m: S = width*height*components of the first segment with marker code m that the marker
+   loop of a decoder meets (other segments are skipped by their length; the walk ends at SOS, EOI
+   or when no marker can be read). Since the decoders reject a second frame header this is the
+   declared size of the unique frame header of the stream. *)
+Definition seg_data (bs : list Z) : list Z :=
+  match bs with a :: b :: r => firstn (Z.to_nat (a * 256 + b - 2)) r | _ => [] end.
+Definition seg_rest (bs : list Z) : list Z :=
+  match bs with a :: b :: r => skipn (Z.to_nat (a * 256 + b - 2)) r | _ => [] end.
+Definition sof_S (d : list Z) : Z :=
+  if zlen d <? 6 then 0
+  else (znth d 3 0 * 256 + znth d 4 0) * (znth d 1 0 * 256 + znth d 2 0) * znth d 5 0.
+Fixpoint frame_S (m : Z) (fuel : nat) (bs : list Z) : Z :=
+  match fuel with
+  | O => 0
+  | S k =>
+    match read_marker bs with
+    | Ok (mk, r) =>
+      if mk =? m then sof_S (seg_data r)
+      else if (mk =? 218) || (mk =? 217) then 0
+      else if has_length mk then frame_S m k (seg_rest r)
+      else frame_S m k r
+    | _ => 0
+    end
+  end.
+Definition frame_declared (m : Z) (bs : list Z) : Z :=
+  match read_marker bs with
+  | Ok (mk, r) => if mk =? 216 then frame_S m (fuel_of bs) r else 0
+  | _ => 0
+  end.
 
 (* ---------------- the independent frame-header walker (C09: declared S) ----------------
    Mirrors harness/suites/parsers/sniff.go SniffJPEG / SniffJ2K, NOT any function of /repo:
